@@ -16,7 +16,7 @@ compiled FFI never reads outside the string.
 * `define_literal_ok_iff`, `define_errors_are_cdef_errors`, `dfa_is_the_regex`: what
   `#define NAME value` does with a value that `_r_int_literal` accepts.
 * `const_errors_are_cffi_errors_partial`: the exception kinds of `_parse_constant`
-  (known findings: hexadecimal floating constants, huge left shifts).
+  (known finding: huge left shifts).
 -/
 namespace CffiVerif.C30
 open CffiVerif.Tokenizer CffiVerif.Generated.C30Tables
@@ -194,13 +194,13 @@ open CffiVerif.ConstErr
 
 /-- **The errors of `_parse_constant` are cffi errors** (`CDefError` or `FFIError`) for every
 expression tree, every table of known constants and both values of `partial_length_ok` --
-*provided* no `Constant` token is empty (pycparser produces none) or a hexadecimal floating
-constant / malformed `0b` literal (`badRadixToken`), and no `<<` with a non-zero left operand
-has a count beyond what Python can materialise (`shlLimit`).
+*provided* no `Constant` token is empty (pycparser produces none), and no `<<` with a non-zero
+left operand has a count beyond what Python can materialise (`shlLimit`).
 
-Full statement (no `TokensOk`/`ShiftsOk` hypotheses) is FALSE on the unchanged tree:
-`hex_float_escapes_as_value_error` and `huge_shift_escapes_as_overflow_error` below are its
-counterexamples (known findings C30/hexfloat-valueerror and C30/huge-shift-overflowerror). -/
+Full statement (no `ShiftsOk` hypothesis) is FALSE on the unchanged tree:
+`huge_shift_escapes_as_overflow_error` below is its counterexample (known finding
+C30/huge-shift-overflowerror).  Hexadecimal floating constants, which used to escape as
+ValueError, are `CDefError` since the `fix:` commit 153798b (`hex_float_is_cdef_error`). -/
 theorem const_errors_are_cffi_errors_partial (shlLimit : Nat) (env : Env) (partialOk : Bool) (e : Expr)
     (ht : TokensOk e) (hs : ShiftsOk shlLimit env e) (x : Exc)
     (h : eval shlLimit env partialOk e = .error x) : x.isCffi = true := by
@@ -216,10 +216,12 @@ theorem negative_shift_is_cdef_error (shlLimit : Nat) (l r : Int) (hr : r < 0) :
     applyBin shlLimit "<<" l r = .error .cdefError ∧ applyBin shlLimit ">>" l r = .error .cdefError := by
   constructor <;> simp [applyBin, hr]
 
-/-- Known finding: a hexadecimal floating constant (`int a[0x1p3];`) leaves the evaluator
-as `ValueError` -- the counterexample to the statement without `TokensOk`. -/
-theorem hex_float_escapes_as_value_error :
-    eval 64 (fun _ => none) false (.const ['0', 'x', '1', 'p', '3']) = .error .valueError := by rfl
+/-- A hexadecimal floating constant (`int a[0x1p3];`, `0x1.8p1`) is `CDefError` ("invalid
+constant"; repaired by the `fix:` commit 153798b -- it used to escape as ValueError). -/
+theorem hex_float_is_cdef_error :
+    eval 64 (fun _ => none) false (.const ['0', 'x', '1', 'p', '3']) = .error .cdefError ∧
+    eval 64 (fun _ => none) false (.const ['0', 'x', '1', '.', '8', 'p', '1']) = .error .cdefError := by
+  constructor <;> rfl
 
 /-- Known finding: `1 << 99999999999999999999` leaves the evaluator as `OverflowError`
 -- the counterexample to the statement without `ShiftsOk` (for any limit below the count). -/
@@ -232,7 +234,7 @@ theorem huge_shift_escapes_as_overflow_error :
 def exExpr : Expr := .binop "<<" (.binop "/" (.const ['5']) (.binop "-" (.const ['3']) (.const ['3']))) (.const ['2'])
 example : TokensOk exExpr := by
   simp only [exExpr, TokensOk]
-  refine ⟨⟨⟨by simp, by rfl⟩, ⟨by simp, by rfl⟩, ⟨by simp, by rfl⟩⟩, ⟨by simp, by rfl⟩⟩
+  refine ⟨⟨by simp, by simp, by simp⟩, by simp⟩
 example : eval 64 (fun _ => none) false exExpr = .error .cdefError := by rfl
 example : ShiftsOk 64 (fun _ => none) exExpr := by
   simp only [exExpr, ShiftsOk]
